@@ -49,9 +49,15 @@ def arith(op, a, b):
     if op == "+":
         if is_num(a) and is_num(b) and not is_bool(a) and not is_bool(b):
             return wrap(a + b) if is_int(a) and is_int(b) else float(a) + float(b)
-        if is_str(a) and is_str(b): return a + b
-        if isinstance(a, KList) and isinstance(b, KList): return KList(a.items + b.items)
-        if isinstance(a, KTuple) and isinstance(b, KTuple): return KTuple(a.items + b.items)
+        if is_str(a) and is_str(b):
+            if len(a) + len(b) > 20000: raise ModelLimit("string growth")
+            return a + b
+        if isinstance(a, KList) and isinstance(b, KList):
+            if len(a.items) + len(b.items) > 5000: raise ModelLimit("list growth")
+            return KList(a.items + b.items)
+        if isinstance(a, KTuple) and isinstance(b, KTuple):
+            if len(a.items) + len(b.items) > 5000: raise ModelLimit("tuple growth")
+            return KTuple(a.items + b.items)
         if isinstance(a, KMap) and isinstance(b, KMap) and a.meta is None and b.meta is None:
             d = dict(a.d); d.update(b.d); return KMap(d)
         raise RuntimeErr("type", "+")
